@@ -194,7 +194,9 @@ def run(ck: Checker):
     ck.floor('C06.DEC', 2)
     ck.rule('C19.SUBC', 'replace_subcircuit, which splices the resynthesised cone, keeps outputs (order, multiplicity) and external users (shared with C19)')
     from .C19 import subc_rules
-    with ck.soft('C04.FOLD / C19.HIST (replace_subcircuit folded)'):
+    from .. import history_fold
+    history_fold.fold_replace_cases(ck, 'C19.SUBC')
+    with ck.soft('C04.FOLD / C19.SUBC (replace_subcircuit folded)'):
         subc_rules(ck)
-    ck.assume('NOT DECIDED: reachability analysis of _eval_dont_cares (while-loop counter), the splice of the main loop (renaming, trivial-output short cut beyond the POL/KEYDOM/OUTS/IDX clauses), truth-table equality in general, size non-increase')
+    ck.assume('NOT DECIDED beyond the folded family: truth-table equality and size non-increase for circuits larger than the model circuits, the real cut enumerator (mockturtle) and the SAT-based synthesiser')
     ck.assume('cirbo/minimization/subcircuit.py cannot be imported in this sandbox (mockturtle_wrapper, pysat missing): no test exercises it')
